@@ -12,11 +12,23 @@ import numpy as np
 import z3
 
 R = z3.RealSort()
-EXP = z3.Function("exp", R, R)
-LOG = z3.Function("log", R, R)
-SQRT = z3.Function("sqrt", R, R)
-TANH = z3.Function("tanh", R, R)
-POW = z3.Function("pow", R, R, R)
+
+
+class Atom:
+    """an application exp(t) / log(t) / sqrt(t) / tanh(t) / pow(t, c), represented by a fresh real constant so that every
+    obligation is a pure polynomial (QF_NRA) problem; the defining relation is kept in the session's atom table and is
+    used for differentiation, numeric evaluation and the sign/monotonicity axioms"""
+    __slots__ = ("name", "kind", "arg", "extra", "const", "fv", "axioms", "deps")
+
+    def __init__(self, name, kind, arg, extra, const):
+        self.name = name
+        self.kind = kind
+        self.arg = arg          # S
+        self.extra = extra      # Fraction exponent for pow
+        self.const = const
+        self.fv = None
+        self.axioms = []
+        self.deps = None        # names of atoms occurring in the argument (transitively)
 
 _consts = {}
 
@@ -86,6 +98,66 @@ def t_neg(a):
     return -a
 
 
+def lin_decompose(t, scale=Fraction(1), acc=None):
+    """flatten a z3 real term into  const + sum coef_i * atom_i ; returns (const, {id: [coef, atom]})"""
+    if acc is None:
+        acc = [Fraction(0), {}]
+    stack = [(t, scale)]
+    while stack:
+        e, k = stack.pop()
+        if z3.is_rational_value(e):
+            acc[0] += k * e.as_fraction()
+            continue
+        kind = e.decl().kind()
+        ch = e.children()
+        if kind == z3.Z3_OP_ADD:
+            stack.extend((c, k) for c in ch)
+        elif kind == z3.Z3_OP_SUB:
+            stack.append((ch[0], k))
+            stack.extend((c, -k) for c in ch[1:])
+        elif kind == z3.Z3_OP_UMINUS:
+            stack.append((ch[0], -k))
+        elif kind == z3.Z3_OP_MUL and sum(1 for c in ch if not z3.is_rational_value(c)) == 1:
+            f = k
+            rest = None
+            for c in ch:
+                if z3.is_rational_value(c):
+                    f *= c.as_fraction()
+                else:
+                    rest = c
+            stack.append((rest, f))
+        elif kind == z3.Z3_OP_DIV and z3.is_rational_value(ch[1]) and ch[1].as_fraction() != 0:
+            stack.append((ch[0], k / ch[1].as_fraction()))
+        else:
+            i = e.get_id()
+            if i in acc[1]:
+                acc[1][i][0] += k
+            else:
+                acc[1][i] = [k, e]
+    return acc[0], acc[1]
+
+
+def lin_rebuild(const, terms):
+    """canonical z3 term for const + sum coef*atom (atoms ordered by AST id: stable within a process)"""
+    r = None
+    for i in sorted(terms):
+        k, a = terms[i]
+        if k == 0:
+            continue
+        t = a if k == 1 else (-a if k == -1 else RV(k) * a)
+        r = t if r is None else r + t
+    if const != 0 or r is None:
+        c = RV(const)
+        r = c if r is None else r + c
+    return r
+
+
+def term_to_S(u):
+    if u.decl().kind() == z3.Z3_OP_DIV:
+        return S(u.arg(0), u.arg(1))
+    return S(u)
+
+
 class Session:
     """per-case symbolic state: atom axioms, preconditions, definedness side conditions, the active explorer"""
 
@@ -95,18 +167,47 @@ class Session:
         self.pre = []
         self.defined = []       # (description, z3 condition that must hold)
         self.explorer = None
-        self.atoms = {}         # id -> (kind, arg terms, atom term)
+        self.atoms = {}         # (kind, arg term id, extra) -> Atom
+        self.atom_names = {}    # constant name -> Atom
         self.nvars = 0
         self.vars = {}          # name -> z3 const
 
-    def add_axiom(self, *fs):
+    def add_axiom(self, *fs, atom=None):
         for f in fs:
             k = f.get_id()
             if k not in self.axiom_ids:
                 self.axiom_ids.add(k)
-                self.axioms.append(f)
-                if self.explorer is not None and self.explorer.solver is not None:
-                    self.explorer.solver.add(f)
+                if atom is not None:
+                    atom.axioms.append(f)
+                else:
+                    self.axioms.append(f)          # global axioms (constants such as ln[c])
+
+    def relevant_axioms(self, terms, seen=None):
+        """global axioms + the axioms of every atom occurring (transitively, through atom arguments) in `terms`"""
+        names = set() if seen is None else seen
+        out = []
+        stack = list(terms)
+        visited = set()
+        while stack:
+            t = stack.pop()
+            k = t.get_id()
+            if k in visited:
+                continue
+            visited.add(k)
+            ch = t.children()
+            if not ch:
+                if z3.is_rational_value(t) or t.decl().kind() != z3.Z3_OP_UNINTERPRETED:
+                    continue
+                at = self.atom_names.get(t.decl().name())
+                if at is not None and at.name not in names:
+                    names.add(at.name)
+                    out.extend(at.axioms)
+                    stack.append(at.arg.n)
+                    stack.append(at.arg.d)
+                    stack.extend(at.axioms)
+            else:
+                stack.extend(ch)
+        return out
 
     def var(self, name):
         v = self.vars.get(name)
@@ -114,6 +215,27 @@ class Session:
             v = z3.Real(name)
             self.vars[name] = v
         return v
+
+    def atom(self, kind, arg, extra=None):
+        """arg: S.  Returns (Atom, is_new)"""
+        t = arg.term()
+        key = (kind, t.get_id(), extra)
+        a = self.atoms.get(key)
+        if a is not None:
+            return a, False
+        name = "@%s%d" % (kind, len(self.atoms))
+        a = Atom(name, kind, arg, extra, z3.Real(name))
+        self.atoms[key] = a
+        self.atom_names[name] = a
+        self._keep = getattr(self, "_keep", [])
+        self._keep.append(t)        # keep the argument term alive so its AST id is not reused
+        return a, True
+
+    def atom_of(self, e):
+        """Atom for a z3 constant, or None"""
+        if e.num_args() != 0 or z3.is_rational_value(e):
+            return None
+        return self.atom_names.get(e.decl().name())
 
 
 SESSION = Session()
@@ -227,6 +349,9 @@ class S:
             SESSION.defined.append(("division", self.n))
         return S(self.d, self.n)
 
+    def inv_nocheck(self):
+        return S(self.d, self.n)
+
     def __truediv__(self, o):
         if isinstance(o, np.ndarray):
             return NotImplemented
@@ -260,11 +385,11 @@ class S:
             return r
         if (fn * 2).is_integer():
             return self.sqrt() ** int(fn * 2)
-        t = self.term()
-        e = POW(t, RV(fn))
-        SESSION.add_axiom(e > 0)
-        SESSION.defined.append(("pow-base-positive", t))
-        return S(e)
+        a, new = SESSION.atom("pow", self, Fraction(fn))
+        if new:
+            SESSION.add_axiom(a.const > 0, atom=a)
+            SESSION.defined.append(("pow-base-positive", self.term()))
+        return S(a.const)
 
     def __rpow__(self, base):
         # base ** self = exp(self * ln base)
@@ -277,13 +402,29 @@ class S:
     def exp(self):
         if self.is_const() and self.const() == 0:
             return S(ONE)
-        t = self.term()
-        e = EXP(t)
-        k = e.get_id()
-        if k not in SESSION.atoms:
-            SESSION.atoms[k] = ("exp", t, e)
-            SESSION.add_axiom(e > 0, (e > 1) == (t > 0), (e == 1) == (t == 0))
-        return S(e)
+        factor = None
+        if z3.is_rational_value(self.d):
+            # canonicalise the argument and apply  exp(t + k*log u) = exp(t) * u**k  (u > 0 is log's own side condition)
+            c0, terms = lin_decompose(self.n, 1 / self.d.as_fraction())
+            for i in list(terms):
+                k, a = terms[i]
+                at = SESSION.atom_of(a)
+                if at is not None and at.kind == "log" and k.denominator == 1:
+                    u = at.arg ** int(k)
+                    factor = u if factor is None else factor * u
+                    del terms[i]
+            live = {i: v for i, v in terms.items() if v[0] != 0}
+            if not live and c0 == 0:
+                return factor if factor is not None else S(ONE)
+            arg = S(lin_rebuild(c0, live))
+        else:
+            arg = self
+        a, new = SESSION.atom("exp", arg)
+        if new:
+            e = a.const
+            t = arg.term()
+            SESSION.add_axiom(e > 0, (e > 1) == (t > 0), (e == 1) == (t == 0), atom=a)
+        return S(a.const) if factor is None else S(a.const) * factor
 
     def log(self):
         if self.is_const():
@@ -295,14 +436,17 @@ class S:
                 SESSION.add_axiom((v > 0) if c > 1 else (v < 0))
                 return S(v)
             raise ArithmeticError("log of non-positive constant")
-        t = self.term()
-        e = LOG(t)
-        k = e.get_id()
-        if k not in SESSION.atoms:
-            SESSION.atoms[k] = ("log", t, e)
-            SESSION.add_axiom((e > 0) == (t > 1), (e == 0) == (t == 1))
+        if isc(self.d, 1):
+            at = SESSION.atom_of(self.n)
+            if at is not None and at.kind == "exp":
+                return at.arg                           # log(exp t) = t
+        a, new = SESSION.atom("log", self)
+        if new:
+            e = a.const
+            t = self.term()
+            SESSION.add_axiom((e > 0) == (t > 1), (e == 0) == (t == 1), atom=a)
             SESSION.defined.append(("log-positive", t))
-        return S(e)
+        return S(a.const)
 
     def sqrt(self):
         if self.is_const():
@@ -310,26 +454,24 @@ class S:
             r = Fraction(math.isqrt(c.numerator), 1) / Fraction(math.isqrt(c.denominator), 1) if c >= 0 else None
             if r is not None and r * r == c:
                 return S(RV(r))
-        t = self.term()
-        e = SQRT(t)
-        k = e.get_id()
-        if k not in SESSION.atoms:
-            SESSION.atoms[k] = ("sqrt", t, e)
+        a, new = SESSION.atom("sqrt", self)
+        if new:
+            e = a.const
+            t = self.term()
             # r*r = t is stated division-free
-            SESSION.add_axiom(e >= 0, t_mul(t_mul(e, e), self.d) == self.n, (e > 0) == (t > 0))
+            SESSION.add_axiom(e >= 0, t_mul(t_mul(e, e), self.d) == self.n, (e > 0) == (t > 0), atom=a)
             SESSION.defined.append(("sqrt-nonnegative", t))
-        return S(e)
+        return S(a.const)
 
     def tanh(self):
         if self.is_const() and self.const() == 0:
             return S(ZERO)
-        t = self.term()
-        e = TANH(t)
-        k = e.get_id()
-        if k not in SESSION.atoms:
-            SESSION.atoms[k] = ("tanh", t, e)
-            SESSION.add_axiom(e < 1, e > -1, (e > 0) == (t > 0), (e == 0) == (t == 0))
-        return S(e)
+        a, new = SESSION.atom("tanh", self)
+        if new:
+            e = a.const
+            t = self.term()
+            SESSION.add_axiom(e < 1, e > -1, (e > 0) == (t > 0), (e == 0) == (t == 0), atom=a)
+        return S(a.const)
 
     def conjugate(self):
         return self
@@ -456,6 +598,7 @@ class Explorer:
         self.solver = None
         self.unknown_feasibility = 0
         self.inherent_ties = 0
+        self._keepalive = []
 
     def run(self, fn):
         """fn() is executed once per feasible path; yields (result, path_condition_list)"""
@@ -474,6 +617,9 @@ class Explorer:
                 self.solver.add(*self.pre)
                 self.solver.add(*sess.pre)
                 self.solver.add(*sess.axioms)
+                self.ax_seen = set()
+                self.decided = {}
+                self.solver.add(*sess.relevant_axioms(list(self.pre) + list(sess.pre), self.ax_seen))
                 res = fn()
                 results.append((res, list(self.pc)))
                 self.paths += 1
@@ -495,7 +641,13 @@ class Explorer:
     def decide(self, c, l, r):
         """script entries are (value, use_strict). Ties between the two compared terms are excluded (strictness) unless
         the tie is inherent, i.e. forced by the path condition."""
+        cid = c.get_id()
+        if cid in self.decided:
+            return self.decided[cid]            # the same comparison was already decided on this path
         strict = (l.n * r.d != r.n * l.d) if not (isc(l.d, 1) and isc(r.d, 1)) else (l.n != r.n)
+        ax = SESSION.relevant_axioms([c, strict], self.ax_seen)
+        if ax:
+            self.solver.add(*ax)
         if self.pos < len(self.script):
             v, use_strict = self.script[self.pos]
         else:
@@ -515,6 +667,8 @@ class Explorer:
             else:
                 v = False
             self.script = self.script[:self.pos] + [(v, use_strict)]
+        self.decided[cid] = v
+        self._keepalive.append(c)
         self.pos += 1
         lit = c if v else z3.Not(c)
         self.pc.append(lit)
@@ -601,6 +755,17 @@ def evalterm(e, env, memo=None):
                     name = t.decl().name()
                     if name.startswith("ln["):
                         r = math.log(float(Fraction(name[3:-1])))
+                    elif name[0] == "@":
+                        at = SESSION.atom_names[name]
+                        an = evalterm(at.arg.n, env, memo)
+                        ad = evalterm(at.arg.d, env, memo)
+                        av = an / ad
+                        if at.kind == "pow":
+                            r = av ** float(at.extra)
+                        else:
+                            r = _FUN[at.kind](av)
+                        if isinstance(r, complex):
+                            raise EvalError("complex value")
                     else:
                         r = env[name]
             elif kind == z3.Z3_OP_ADD:
@@ -617,12 +782,6 @@ def evalterm(e, env, memo=None):
                 r = vals[0] / vals[1]
             elif kind == z3.Z3_OP_POWER:
                 r = vals[0] ** vals[1]
-            elif kind == z3.Z3_OP_UNINTERPRETED:
-                name = t.decl().name()
-                if name == "pow":
-                    r = vals[0] ** vals[1]
-                else:
-                    r = _FUN[name](vals[0])
             elif kind == z3.Z3_OP_GT:
                 r = vals[0] > vals[1]
             elif kind == z3.Z3_OP_GE:
@@ -699,7 +858,32 @@ def _dterm_raw(e, x, memo):
     ch = e.children()
     kind = e.decl().kind()
     if not ch:
-        return S(ONE) if e.eq(x) else S(ZERO)
+        if e.eq(x):
+            return S(ONE)
+        at = SESSION.atom_of(e)
+        if at is None:
+            return S(ZERO)
+        if x.decl().name() not in atom_free_vars(at):
+            return S(ZERO)
+        da = dS(at.arg, x, memo)
+        if isc(da.n, 0):
+            return S(ZERO)
+        if at.kind == "exp":
+            return S(e) * da
+        if at.kind == "log":
+            return da * at.arg.inv_nocheck()
+        if at.kind == "sqrt":
+            return da * S(ONE, t_mul(RV(2), e))
+        if at.kind == "tanh":
+            return (S(ONE) - S(e) * S(e)) * da
+        if at.kind == "pow":
+            c = at.extra
+            cm1 = Fraction(float(c) - 1.0)       # the code computes n - 1 in floating point
+            b, new = SESSION.atom("pow", at.arg, cm1)
+            if new:
+                SESSION.add_axiom(b.const > 0, atom=b)
+            return S(RV(c)) * S(b.const) * da
+        raise NotImplementedError(at.kind)
     if kind == z3.Z3_OP_ADD:
         r = S(ZERO)
         for c in ch:
@@ -730,28 +914,6 @@ def _dterm_raw(e, x, memo):
         if isc(db.n, 0):
             return da * S(ONE, b)
         return (da * S(b) - S(a) * db) * S(ONE, t_mul(b, b))
-    if kind == z3.Z3_OP_UNINTERPRETED:
-        name = e.decl().name()
-        a = ch[0]
-        da = _dterm(a, x, memo)
-        if name == "pow":
-            if isc(da.n, 0):
-                return S(ZERO)
-            c = ch[1]
-            cm1 = RV(float(c.as_fraction()) - 1.0)   # the code computes n - 1 in floating point
-            return S(c) * S(POW(a, cm1)) * da
-        if isc(da.n, 0):
-            return S(ZERO)
-        if name == "exp":
-            return S(e) * da
-        if name == "log":
-            if a.decl().kind() == z3.Z3_OP_DIV:
-                return da * S(a.arg(1), a.arg(0))
-            return da * S(ONE, a)
-        if name == "sqrt":
-            return da * S(ONE, t_mul(RV(2), e))
-        if name == "tanh":
-            return (S(ONE) - S(e) * S(e)) * da
     raise NotImplementedError("d/dx of %s" % e.decl())
 
 
@@ -767,6 +929,7 @@ def dS(s, x, memo):
 
 
 def free_vars(e, memo=None, acc=None):
+    """names of the input variables a term depends on (looking through atoms)"""
     if memo is None:
         memo = set()
     if acc is None:
@@ -780,9 +943,20 @@ def free_vars(e, memo=None, acc=None):
         memo.add(k)
         ch = t.children()
         if not ch and not z3.is_rational_value(t) and t.decl().kind() == z3.Z3_OP_UNINTERPRETED:
-            acc.add(t.decl().name())
+            name = t.decl().name()
+            at = SESSION.atom_names.get(name)
+            if at is None:
+                acc.add(name)
+            else:
+                acc |= atom_free_vars(at)
         stack.extend(ch)
     return acc
+
+
+def atom_free_vars(at):
+    if at.fv is None:
+        at.fv = frozenset(free_vars(at.arg.n) | free_vars(at.arg.d))
+    return at.fv
 
 
 def vjp(out, g, x):
